@@ -263,6 +263,15 @@ type gcsQuery struct {
 type c13Case struct {
 	D  gcsData    `json:"filter"`
 	Qs []gcsQuery `json:"queries"`
+	// Hist: further calls on the same filter object in this order; op 0 Match(first item of the query),
+	// 1 MatchAny, 2 ZipMatchAny, 3 HashMatchAny; Q indexes Qs, Top selects a member with a large value
+	Hist []gcsCall `json:"history"`
+}
+
+type gcsCall struct {
+	Op  int `json:"op"`
+	Q   int `json:"q"`
+	Top int `json:"top"` // >0: query the member with the Top-th largest reduced value instead
 }
 
 func (q gcsQuery) resolve(items [][]byte, seed uint32) [][]byte {
@@ -386,6 +395,59 @@ func evalC13(c c13Case, o *Obs) error {
 			}
 		}
 	}
+	// call histories: the answers do not depend on what was asked before
+	if len(c.Hist) > 0 && len(items) > 0 {
+		o.Class("C13:call-history")
+		type iv struct {
+			item []byte
+			v    uint64
+		}
+		byVal := make([]iv, len(items))
+		for i, it := range items {
+			byVal[i] = iv{it, refReduce(refSipHash(key, it), np)}
+		}
+		sort.Slice(byVal, func(a, b int) bool { return byVal[a].v > byVal[b].v })
+		for hi, call := range c.Hist {
+			var query [][]byte
+			if call.Top > 0 {
+				query = [][]byte{byVal[(call.Top-1)%len(byVal)].item}
+			} else if len(c.Qs) > 0 {
+				query = c.Qs[((call.Q%len(c.Qs))+len(c.Qs))%len(c.Qs)].resolve(items, c.D.Seed)
+			}
+			if len(query) == 0 {
+				continue
+			}
+			want := false
+			for _, x := range query {
+				if set[refReduce(refSipHash(key, x), np)] {
+					want = true
+				}
+			}
+			var got bool
+			var err error
+			name := ""
+			switch call.Op % 4 {
+			case 0:
+				name = "Match"
+				query = query[:1]
+				want = set[refReduce(refSipHash(key, query[0]), np)]
+				got, err = f.Match(key, query[0])
+			case 1:
+				name = "MatchAny"
+				got, err = f.MatchAny(key, query)
+			case 2:
+				name = "ZipMatchAny"
+				got, err = f.ZipMatchAny(key, query)
+			default:
+				name = "HashMatchAny"
+				got, err = f.HashMatchAny(key, query)
+			}
+			if err != nil || got != want {
+				return fmt.Errorf("%s: call %d of the history, %s(%d items, first %x) = %v,%v; exact set semantics says %v (earlier calls: %v)",
+					desc, hi, name, len(query), query[0], got, err, want, c.Hist[:hi])
+			}
+		}
+	}
 	if after, _ := f.NBytes(); !bytes.Equal(after, fbytes) {
 		return fmt.Errorf("%s: the filter's serialisation changed while it was being queried", desc)
 	}
@@ -434,7 +496,17 @@ var kC13 = register(&Kind[c13Case]{
 	Prop: "C13", Name: "query",
 	Gen: func(t *rapid.T) c13Case {
 		d := genGCSData(t, pick(2000, 20000))
-		return c13Case{D: d, Qs: genQueries(t, d.N)}
+		c := c13Case{D: d, Qs: genQueries(t, d.N)}
+		if rapid.Bool().Draw(t, "hist") {
+			for i := rapid.IntRange(2, 12).Draw(t, "nhist"); i > 0; i-- {
+				call := gcsCall{Op: rapid.IntRange(0, 3).Draw(t, "hop"), Q: rapid.IntRange(0, 3).Draw(t, "hq")}
+				if rapid.Bool().Draw(t, "htop") {
+					call.Top = rapid.IntRange(1, 4).Draw(t, "htopk")
+				}
+				c.Hist = append(c.Hist, call)
+			}
+		}
+		return c
 	},
 	Eval: evalC13,
 })
@@ -575,6 +647,6 @@ func TestC13(t *testing.T) {
 		kC13Collide.Run(t, ev, perShard(pick(12, 600)))
 		kC13.Run(t, ev, perShard(pick(2000, 15000)))
 		ev.requireClasses("C13:P=0", "C13:P=32", "C13:N*M>=2^32", "C13:empty-filter", "C13:empty-query",
-			"C13:MatchAny->hash-branch", "C13:MatchAny->zip-branch", "C13:low-32-bit-collision-with-a-member")
+			"C13:MatchAny->hash-branch", "C13:MatchAny->zip-branch", "C13:low-32-bit-collision-with-a-member", "C13:call-history")
 	})
 }
